@@ -124,6 +124,47 @@ def L_value(s: Sym) -> Sym:
     return s
 
 
+def _merge_ife(cond: Sym, a: Sym, b: Sym) -> Sym:
+    """length of `x if cond else y`: when cond bounds a variable (v < K / v <= K) and, under that bound, every
+    size_varint(..) of the else-length is a constant that turns it into the then-length, both branches have the
+    else-length (a fixed-width fast path next to the general varint path)"""
+    from .numeric import interval
+    from .sym import simplify
+    c = simplify(cond)
+    neg = False
+    if c[0] == "op" and c[1] == "not":
+        c, neg = c[2], True
+    if neg:
+        a, b = b, a          # `not (v < K)`: the bounded branch is the else branch
+    bound = None
+    if c[0] == "op" and c[1] == "<" and c[3][0] == "c" and isinstance(c[3][1], int) and c[2][0] in ("n", "a"):
+        bound = (c[2], c[3][1] - 1)
+    if bound is not None:
+        var, hi = bound
+
+        def env(t):
+            return (0, hi) if t == var else None
+
+        def spec(t: Sym) -> Sym:
+            if t[0] == "call" and t[1] == N("size_varint") and len(t[2]) == 1:
+                lo_, hi_ = interval(t[2][0], env)
+                if lo_ >= 0 and hi_ != float("inf"):
+                    n_lo = max(1, -(-int(lo_).bit_length() // 7))
+                    n_hi = max(1, -(-int(hi_).bit_length() // 7))
+                    if n_lo == n_hi:
+                        return C(n_hi)
+                return t
+            if t[0] == "sum":
+                return _sum([spec(x) for x in t[1]])
+            return t
+
+        if spec(b) == a:
+            return b
+    if neg:
+        a, b = b, a
+    return _sum([("ife", cond, a, b)])
+
+
 def L(s: Sym) -> Sym:
     """length of the bytes-like term s as canonical sum"""
     k = s[0]
@@ -136,12 +177,14 @@ def L(s: Sym) -> Sym:
     if k == "op" and s[1] == "or" and len(s) == 4:
         return _sum([("or", L(s[2]), L(s[3]))])
     if k == "ife":
-        return _sum([("ife", s[1], L(s[2]), L(s[3]))])
+        return _merge_ife(s[1], L(s[2]), L(s[3]))
     if k == "acc":
         return _sum([("acc", s[1], L(s[2]))])
     if k == "call":
         name = dotted(s[1])
         base = name.split(".")[-1]
+        if base == "to_bytes" and s[1][0] == "a" and s[2] and s[2][0][0] == "c" and isinstance(s[2][0][1], int):
+            return _sum([C(s[2][0][1])])          # int.to_bytes(k, ...) is k bytes long
         if name in WRITER_TO_SIZER:
             return _sum([sizer_call(WRITER_TO_SIZER[name], s[2], s[3])])
         if name in ("bytes", "bytearray", "memoryview"):
